@@ -13,9 +13,12 @@ RULE = ("2-4 conditions (PINN/Mean/SingleModule/AdaptiveWeights/Periodic; fresh 
         "Oracle: (a) every evaluate(i) returns the solo world's loss (rel 1e-6) and fails iff the solo one fails; (b) after every "
         "operation the user's dictionary holds the same objects under the same keys; (c) a condition with a never-resampling static "
         "sampler evaluated again without optimisation returns the identical loss; (d) periodic left/right data on their own side "
-        "(C04's oracle). non-trivial = >= 1 evaluation compared; distinct = (condition kinds, sharing pattern, history length)")
+        "(C04's oracle). DeepONet leg: 1-2 DeepONets, 1-3 function sets, 2-4 PI-DeepONet conditions sharing networks and/or function sets, "
+        "driven by the Solver's protocol (training steps: every training condition with the step number; validation steps: "
+        "iteration=None; simulated optimiser steps in between); every evaluation is compared with the solo world (same recipe alone, "
+        "same weight changes) and with the loss recomputed outside the condition on a twin network. non-trivial = >= 1 evaluation compared; distinct = (condition kinds, sharing pattern, history length)")
 ASSUMPTIONS = ["sharing one sampler object or one model being trained between conditions is not in the property's list and is not generated",
-               "DeepONet conditions sharing one network (stale branch cache, F22 of DESIGN.md) are not generated in this round"]
+               "DeepONet leg (20 % of the cases, engine donsim): function sets take their parameters from a DataSampler, so that the loss is a function of weights, function family and trunk points alone"]
 COMPONENTS = {"real": ["torchphysics conditions, samplers, UserFunction"], "owned_by_simulator": ["order of construct/evaluate events", "per-operation draw streams (same in both worlds)"],
               "stubbed_or_disabled": ["closed-form Model"]}
 
